@@ -251,8 +251,17 @@ class EffectMonitor:
                 bad = 'player status not switched off'
         elif n == 'HoleCardsShowingOrMucking':
             if op.hole_cards:
-                if tuple(cur['holes'][i]) != tuple(op.hole_cards) and [c for c in cur['holes'][i] if c] != [c for c in op.hole_cards if c]:
-                    bad = f'recorded {op.hole_cards} vs hole cards now {cur["holes"][i]}'
+                # every tabled (known) card of the record is the hole card at that position and is now face up; a position the
+                # record leaves unknown was kept face down (its status must not have been switched on by this operation)
+                hc, hs = cur['holes'][i], cur['hstat'][i]
+                if len(hc) != len(op.hole_cards):
+                    bad = f'recorded {op.hole_cards} vs hole cards now {hc}'
+                else:
+                    for k, c in enumerate(op.hole_cards):
+                        if c and (hc[k] != c or not hs[k]):
+                            bad = f'recorded {op.hole_cards} vs hole cards now {hc} statuses {hs}'
+                        elif not c and hs[k] and not p['hstat'][i][k]:
+                            bad = f'recorded {op.hole_cards} (position {k} kept face down) but statuses went {p["hstat"][i]} -> {hs}'
             elif cur['statuses'][i]:
                 bad = 'recorded a muck but the player is still in'
         elif n == 'RunoutCountSelection':
@@ -279,7 +288,7 @@ def jobs(tier, seed):
     th = tier == 'thorough'
     out = []
     for au in ['NONE', 'ALL'] + MIX:
-        out.append(_j('NT-2-cash', C.nt((2, 3), mode='cash', autos=au), opts={'runouts': (None, 1, 2), 'show': (None, True, False)}))
+        out.append(_j('NT-2-cash', C.nt((2, 3), mode='cash', autos=au), opts={'runouts': (None, 1, 2), 'show': (None, True, False, 'partial')}))
         out.append(_j('NT-3', C.nt((3, 5, 2), autos=au, antes=1), opts={'raises': 'minmax', 'show': (None, True)},
                       dev_bound=5 if not th else None))
         out.append(_j('stud-2', C.stud((3, 6), autos=au), dev_bound=5 if not th else 7))
@@ -292,7 +301,7 @@ def jobs(tier, seed):
                                                        antes=1, blinds=(1, 2), boards=2, mode='cash', autos=au),
                       opts={'runouts': (None, 2), 'players': au == 'NONE'}, dev_bound=4 if not th else None))
         out.append(_j('PLO-2boards', C.nt((3, 2), autos=au, game='PotLimitOmahaHoldem', boards=2, mode='cash'),
-                      opts={'runouts': (None, 2)}))
+                      opts={'runouts': (None, 2), 'show': (None, 'partial')}))
         if th:
             out.append(_j('FT-3', C.fl((5, 9, 3), autos=au), dev_bound=5))
             out.append(_j('NS-3', C.nt((3, 5, 4), autos=au, antes=1, game='NoLimitShortDeckHoldem', blinds=(0, 2)),
